@@ -1761,7 +1761,138 @@ class C19(Prop):
         return tot, fails
 
 
-PROPS = {p.name: p for p in [C01(), ALL(), C04(), C02(), C03(), C05(), C08(), C15(), C18(), C06(), C17(), C20(), C11(), C12(), C13(), C14(), C09(), C19()]}
+# ------------------------------------------------------------------------------------------------
+# C07: spans and slices
+
+_SPTOK = _re.compile(r'\(sp (\d+) (\d+)\)|\(sl (\d+) (\d+)\)|\(g 77 |\(|\)')
+
+
+def spans_in(val):
+    """(all spans/slices of a rendered value, nesting violations among `(g 77 (p V (sp s e)))` capture nodes)"""
+    spans = []
+    bad = []
+    # stack entries: ['cap', depth, [child spans]] for capture nodes, None for ordinary parens
+    stack = []
+    for m in _SPTOK.finditer(val):
+        t = m.group(0)
+        if t.startswith('(sp') or t.startswith('(sl'):
+            s, e = (int(m.group(1)), int(m.group(2))) if t.startswith('(sp') else (int(m.group(3)), int(m.group(4)))
+            spans.append((t[1:3], s, e))
+            if t.startswith('(sp'):
+                for fr in stack:
+                    if fr is not None:
+                        fr[1].append((s, e))
+        elif t == '(g 77 ':
+            stack.append(['cap', []])
+        elif t == '(':
+            stack.append(None)
+        else:
+            fr = stack.pop() if stack else None
+            if fr is not None and fr[1]:
+                # the last span recorded inside a capture node is the capture's own span; the others are its children
+                ps, pe = fr[1][-1]
+                for (cs, ce) in fr[1][:-1]:
+                    if cs != ce and not (ps <= cs and ce <= pe):
+                        bad.append(f'child span {cs}..{ce} not inside its parent {ps}..{pe}')
+    return spans, bad
+
+
+CAP = lambda a: ('map', ('tag', 77), ('mwspan', a))
+
+
+def wrap_all(g, kind):
+    """every grammar node (not iterators) wrapped in a tagged span capture"""
+    def go(t):
+        t2 = gen.replace_children(t, go)
+        if t[0] in gen.IT_OPS:
+            return t2
+        return CAP(t2)
+    return go(g)
+
+
+class C07(Prop):
+    name = 'C07'; module = 'C07'; claimed = True
+    title = 'spans and slices are exact, well-formed and zero-copy'
+    bins = ['h_str_rich', 'h_slice_rich', 'h_mapped_rich', 'h_stream_rich', 'h_mstream_rich']
+    rule = ('C01-class grammars (<= 3 nodes) and repetition/separator consumers incl. foldl_with/foldr_with, with EVERY node wrapped in a '
+            'tagged map_with span capture, plus single to_span / to_slice insertions; input kinds &str (multi-byte), &[char], Stream, '
+            'Input::map over a slice and over a Stream with token gaps 0, 1, 3; all inputs up to the bound; observation = the output '
+            '(all spans, slices as pointer offsets into the caller\'s buffer); non-trivial = backtracking grammar and non-empty input')
+    level_text = ('theorems: every capture site gets mkSpan of exactly the positions its sub-parser matched between (machine = reading, '
+                  'all grammars), and mkSpan is non-inverted, inside the input, on character boundaries, nested/ordered, empty for empty '
+                  'matches and between the neighbouring tokens for gapped inputs (Lean); outputs of the real crate compared with reading '
+                  'and model, spans checked against the input and for nesting; slices observed as pointer offsets')
+
+    def cases(self, tier, seed):
+        rng = random.Random(seed)
+        by = gen.enum_by_size(3, gen.C01_LEAVES, gen.C01_UNARIES, gen.C01_BINARIES, gen.C01_TERNARIES)
+        base = [g for s in (1, 2, 3) for g in by[s]]
+        rng.shuffle(base)
+        base = base[:900 if tier == 'quick' else 9000]
+        its = gen.c02_iterators(gen.C02_ITEMS[:5], gen.C02_SEPS[:3], [(0, None), (1, 2), (0, 1), (2, None)])
+        rng.shuffle(its)
+        cons = []
+        for it in its[:90 if tier == 'quick' else 900]:
+            cons.extend(gen.c02_consumers(it))
+        for _ in range(300 if tier == 'quick' else 3000):
+            base.append(gen.random_grammar(rng, rng.randint(3, 5), gen.C01_LEAVES, gen.C01_UNARIES, gen.C01_BINARIES, gen.C01_TERNARIES))
+        kinds = ['str', 'slice', 'mapped0', 'mapped1', 'mapped3', 'stream', 'mstream1', 'mstream3']
+        inp = inputs_all(4 if tier == 'quick' else 5, [gen.A, gen.B, gen.EA]) + ' ' + inputs_all(2, [gen.A, gen.CLEF])
+        inp2 = inputs_all(5 if tier == 'quick' else 6, gen.C02_ALPHA)
+        lines = []
+        n = 0
+        for g, inputs in [(g, inp) for g in base] + [(g, inp2) for g in cons]:
+            variants = [wrap_all(g, None)]
+            singles = gen.insert_at_nodes(g, lambda a: ('tospan', a)) + gen.insert_at_nodes(g, lambda a: ('toslice', a))
+            rng.shuffle(singles)
+            variants += singles[:2]
+            for v in variants:
+                kind = kinds[n % len(kinds)]
+                if kind not in ('str', 'slice') and 'toslice' in gen.ops_of(v):
+                    kind = 'str' if n % 2 == 0 else 'slice'      # to_slice needs a SliceInput
+                lines.append(case_line(f'p{n}', v, inputs, kind=kind))
+                n += 1
+        return lines
+
+    def compare(self, line, k, impl_M, model_M, spec_S):
+        im, mm, ss = parse_M(impl_M), parse_M(model_M), parse_S(spec_S)
+        i = proj_accept_value(im)
+        corr = i == proj_accept_value(mm)
+        why = []
+        if ss['kind'] != 'OOF' and i != spec_accept_value(ss):
+            why.append('output (spans / slices) differs from the reading: the span of exactly what each sub-parser consumed')
+        if im['kind'] == 'R' and im['out'] is not None:
+            kind = line.split(' ', 4)[2]
+            toks = input_of(line, k)
+            spans, bad = spans_in(im['out'])
+            # nesting is claimed for what a parser CONSUMED: a lookahead child (rewind, and_is, not) matches input its parent does not consume
+            if not any(t in ('rewind', 'andis', 'not') for t in grammar_of(line).split()):
+                why.extend(bad[:2])
+            gap = int(kind[-1]) if kind[-1].isdigit() else None
+            if gap is not None:
+                starts = {i_ * (gap + 2) + gap for i_ in range(len(toks) + 1)}
+                ends = {i_ * (gap + 2) + gap + 2 for i_ in range(len(toks))}
+                ok_pts = starts | ends
+                total = len(toks) * (gap + 2) + gap
+            else:
+                offs = offsets('str' if kind == 'str' else 'slice', toks)
+                ok_pts = set(offs)
+                total = offs[-1]
+            for (t, s_, e_) in spans:
+                if s_ > e_:
+                    why.append(f'inverted span {s_}..{e_}')
+                elif e_ > total:
+                    why.append(f'span {s_}..{e_} reaches outside the input (0..{total})')
+                elif s_ not in ok_pts or e_ not in ok_pts:
+                    why.append(f'span {s_}..{e_} does not start/end on a token (character) boundary')
+                elif gap is not None and s_ != e_ and (s_ not in starts or e_ not in ends):
+                    why.append(f'non-empty span {s_}..{e_} does not run from a token start to a token end')
+        return {'corr': corr, 'pred': not why, 'why': '; '.join(why[:3]),
+                'outcome': 'accept' if i[0] == 'R' and i[1] is not None else ('reject' if i[0] == 'R' else i[0]),
+                'nontrivial': is_nontrivial(line, k, i)}
+
+
+PROPS = {p.name: p for p in [C01(), ALL(), C04(), C02(), C03(), C05(), C08(), C15(), C18(), C06(), C17(), C20(), C11(), C12(), C13(), C14(), C09(), C19(), C07()]}
 for _s in ['c01', 'c02', 'emit', 'rec', 'deco', 'ctx', 'ek', 'state']:
     PROPS['ALL_' + _s] = ALL([_s])
     PROPS['ALL_' + _s].name = 'ALL_' + _s
